@@ -18,4 +18,6 @@ def run(prog, rep, tier):
     apply(rep, "Q4", "shared sequence storage mutated only through an owned operand", r_pure.q4(prog), 3)
     apply(rep, "Q4c", "copies never alias storage that `add` mutates in place", r_pure.q4c(prog), 3)
     apply(rep, "W1", "const protocol (type-level)", r_pure.w1(prog), 8)
+    import r_pure as _rp
+    apply(rep, "Q5", "libdw's sticky error indicator is never used to decide without being cleared first (CFG must-pass-through)", _rp.q5(prog), 2)
     maybe_mutants("C12", rep, tier)
